@@ -32,7 +32,9 @@ MANIFEST = {
             "SessionCache.__getitem__/__setitem__, Python_RSAKey._rawPrivateKeyOp and the VerifierDB/BaseDB methods are generated "
             "from the Python AST on every run and decided by `decide` (sessioncache/rsakey/verifierdb_lock_discipline); "
             "concurrent_cache_correct: every complete interleaving of cache calls is explained by one serial history whose "
-            "results are the specification's. Tie and search: sequential histories on the real class vs model vs an independent "
+            "results are the specification's; concurrent_rsa_correct: for a well-formed key (C10's ValidKey) every interleaving of "
+            "any number of threads calling _rawPrivateKeyOp returns m^d mod n for every call and keeps blinder*unblinder^e = 1 mod n "
+            "(C10's model rawPrivateKeyOp as sequential composition, its algebra proved in TlsProofs/RsaCorrect.lean, no hypothesis). Tie and search: sequential histories on the real class vs model vs an independent "
             "Python reference; systematic schedule exploration (settrace scheduler, bounded preemptions) and stress runs on the "
             "real SessionCache, Python_RSAKey (results = pow(c,d,n), blinding pair stays matched) and VerifierDB, checked for "
             "linearizability against the reference.",
@@ -41,8 +43,9 @@ MANIFEST = {
             "atomicity of single dict/list operations and of attribute stores (GIL). The per-statement semantics of the methods is "
             "universally quantified in concurrent_cache_correct, constrained only by the generated shape and by agreeing sequentially "
             "with the model (what the correspondence samples). Sessions are invalidated by callers outside any lock (a single attribute "
-            "store). Setup methods (__init__, BaseDB.create/open) are assumed to finish before the object is shared. RSA arithmetic "
-            "(blinding algebra, CRT) is not proved here (C10/C11); results are checked against pow(c,d,n). maxEntries = 0 is outside "
+            "store) and invalidation is part of the sequential theorem only. Setup methods (__init__, BaseDB.create/open) are assumed "
+            "to finish before the object is shared. The RSA blinding/CRT algebra is imported from C10's proof modules "
+            "(TlsProofs/RsaCorrect.lean, Mathlib number theory); the harness checks results against pow(c,d,n). maxEntries = 0 is outside "
             "the property (the first store raises IndexError; shown in Lean).",
     "technique": "Lean 4 refinement proof (circular-buffer invariant), reduction theorem for lock-protected sections over generated "
                  "lock structure, differential correspondence, deterministic schedule exploration with linearizability oracle",
